@@ -325,7 +325,11 @@ def check_regions(res, tier):
     cases = [("lsn", {"orthogonal": False, "nonorthogonal_xpoint_poloidal_spacing_length": XN, "nonorthogonal_target_all_poloidal_spacing_length": TN}),
              ("cdn", {"orthogonal": False, "nonorthogonal_xpoint_poloidal_spacing_length": XN, "nonorthogonal_target_all_poloidal_spacing_length": TN,
                       "nonorthogonal_target_inner_lower_poloidal_spacing_length": TN_IL}),
-             ("lsn", {"xpoint_poloidal_spacing_length": XO, "target_all_poloidal_spacing_length": TO, "target_outer_lower_poloidal_spacing_length": TO_OL})]
+             ("lsn", {"xpoint_poloidal_spacing_length": XO, "target_all_poloidal_spacing_length": TO, "target_outer_lower_poloidal_spacing_length": TO_OL}),
+             # a normalisation that is not a whole number (N_norm = 0.5 * 15, 1.3 * 15): the gradients are per unit of i / N_norm as documented
+             ("lsn", {"orthogonal": False, "N_norm_prefactor": 0.5, "nonorthogonal_xpoint_poloidal_spacing_length": XN,
+                      "nonorthogonal_target_all_poloidal_spacing_length": TN}),
+             ("lsn", {"N_norm_prefactor": 1.3, "xpoint_poloidal_spacing_length": XO, "target_all_poloidal_spacing_length": TO})]
     if tier == "thorough":
         cases += [("udn", dict(cases[0][1])), ("usn", dict(cases[2][1])), ("ldn", dict(cases[1][1]))]
     for geo, extra in cases:
